@@ -57,7 +57,7 @@ FLAGS = {
 
 def effective(variant):
     """tools/coverage.py runs the ordinary sessions against the instrumented library: VERIF_COVERAGE=1 maps the plain variant to cov"""
-    return "cov" if variant == "plain" and os.environ.get("VERIF_COVERAGE") == "1" else variant
+    return "cov" if variant in ("plain", "asan") and os.environ.get("VERIF_COVERAGE") == "1" else variant
 
 
 def evict(keep_hash, keep=5):
